@@ -126,6 +126,41 @@ def mock_stims(seed, tier):
     return out
 
 
+def mock_table_stims(seed, tier, mc):
+    """MC_Response: the TLC-enumerated table of response shapes, served to the generated client as canned responses."""
+    import struct
+    rows, st = core.tlc_export('MC_Response', 'MC_Response.cfg', workers=4, timeout=900)
+    mc.append(st)
+    if len(rows) != 11088:
+        raise ToolError(f'MC_Response exported {len(rows)} points, expected 11088')
+    rnd = random.Random(seed + 77)
+    if tier != 'thorough':
+        small = [r for r in rows if r['class'] in ('error_from_trailers', 'ok_if_shape_allows', 'error_from_http_status')]
+        rows = small + rnd.sample([r for r in rows if r['class'] == 'error_from_headers'], 500) + rnd.sample([r for r in rows if r['class'] == 'unspecified'], 400)
+    val = {'0': b'0', '2': b'2', '5': b'5', '14': b'14', '16': b'16', 'bad': b'1&'}
+    out = []
+    for r in rows:
+        headers = [{'n': 'content-type', 'v': list(b'application/grpc')}]
+        if r['hs'] != 'none':
+            headers.append({'n': 'grpc-status', 'v': list(val[r['hs']])})
+        if r['hmsg']:
+            headers.append({'n': 'grpc-message', 'v': list(b'from headers')})
+        frames = [[0] + list(struct.pack('>I', 2)) + [j, 7] for j in range(r['nmsg'])]
+        has_tr = r['ts'] != 'absent'
+        trailers = []
+        if r['ts'] not in ('absent', 'nostatus'):
+            trailers.append({'n': 'grpc-status', 'v': list(val[r['ts']])})
+        if has_tr and r['tmsg']:
+            trailers.append({'n': 'grpc-message', 'v': list(b'from trailers')})
+        if r['ts'] == 'nostatus':
+            trailers.append({'n': 'x-other', 'v': list(b'1')})
+        out.append({'mode': 'mock', 'class': 'mock_table_' + r['class'], 'transport': 'mock', 'shim': {'cap': 0, 'rq': 0, 'wq': 0, 'pend': 0}, 'shape': r['shape'],
+                    'server': {'send': [], 'accept': [], 'max_dec': -1, 'max_enc': -1}, 'client': {'send': '', 'accept': [], 'max_dec': -1, 'max_enc': -1},
+                    'req': {'meta': [], 'msgs': [[1]]}, 'script': {'init_meta': [], 'msgs': [], 'end': {'ok': True}, 'fail_before': False, 'no_compress': False},
+                    'mock': {'status': r['http'], 'headers': headers, 'body_chunks': frames, 'has_trailers': has_tr, 'trailers': trailers, 'first_flagged': False}})
+    return out
+
+
 def limit_stims(seed, tier):
     """C06 at call level: max_{de,en}coding_message_size configured on the generated client / server."""
     rnd = random.Random(seed + 6)
@@ -162,6 +197,8 @@ def check(prop, tier, seed):
         fams.append(('mock_responses', mock_stims(seed, tier)))
         fams.append(('negotiation_table', negotiation_stims(seed, tier, mc)))
         fams.append(('client_negotiation', client_negotiation_stims(seed, tier)))
+    if prop == 'C02':
+        fams.append(('response_table', mock_table_stims(seed, tier, mc)))
     if prop == 'C08':
         fams.append(('calls2', simple.gen('call', seed + 77, tier, tag)))
     if prop == 'C06':
@@ -188,7 +225,7 @@ def check(prop, tier, seed):
                          ['in-process runs tap both http bodies; h2 runs (one third) observe only the two API views',
                           'flagged payloads are decompressed by CPython zlib / zstd bulk API (trusted base)',
                           'metadata equality is per name, order-preserving; extra headers added by the transport are ignored (superset rule)'],
-                         'vh call; tlc Trace_Call.cfg' + ('; tlc MC_Negotiation.cfg' if prop == 'C05' else ''))
+                         'vh call; tlc Trace_Call.cfg' + ('; tlc MC_Negotiation.cfg' if prop == 'C05' else '; tlc MC_Response.cfg' if prop == 'C02' else ''))
 
 
 def replay(prop, path):
